@@ -148,6 +148,12 @@ func c24ExportMuts() []c24Mut {
 		{"squash-respelled", func(o *ExportOptions) { o.Squash = "NONE"; o.TransferSize = 4321; o.AttrCacheSize = 77; o.ReadOnly = true }},
 		{"ratelimit-nil-config", func(o *ExportOptions) { o.EnableRateLimiting = true; o.RateLimitConfig = nil }},
 		{"transfer-size-8k", func(o *ExportOptions) { o.TransferSize = 8192 }},
+		{"ratelimit-custom-config", func(o *ExportOptions) {
+			rc := DefaultRateLimiterConfig()
+			rc.PerIPBurstSize, rc.GlobalRequestsPerSecond = 777, 55555
+			o.EnableRateLimiting, o.RateLimitConfig = true, &rc
+		}},
+		{"ratelimit-off", func(o *ExportOptions) { o.EnableRateLimiting = false }},
 	}
 }
 
@@ -392,6 +398,14 @@ func (s *c24State) componentsDetail(o ExportOptions) []string {
 		}
 		dc.mu.RUnlock()
 	}
+	n.policyRWMu.RLock()
+	rl := n.rateLimiter
+	n.policyRWMu.RUnlock()
+	if (rl != nil) != o.EnableRateLimiting {
+		d = append(d, fmt.Sprintf("EnableRateLimiting: reported %v, limiter installed %v", o.EnableRateLimiting, rl != nil))
+	} else if rl != nil && o.RateLimitConfig != nil && !reflect.DeepEqual(rl.config, *o.RateLimitConfig) {
+		d = append(d, fmt.Sprintf("RateLimitConfig: reported %+v, limiter runs %+v", *o.RateLimitConfig, rl.config))
+	}
 	if wp := n.workerPool; wp != nil {
 		if mw, _, _ := wp.Stats(); mw != o.MaxWorkers {
 			d = append(d, fmt.Sprintf("MaxWorkers: reported %d, pool %d", o.MaxWorkers, mw))
@@ -450,7 +464,7 @@ func init() {
 	vRegister(&vCheck{
 		id: "C24", level: "model_checking", flavour: "vtime",
 		shards: func(string) int { return 15 },
-		rule: "breadth-first search over sequences (depth 3, thorough 4) of 30 runtime updates: UpdateExportOptions with {zero value, only ReadOnly, current, TransferSize -1/0/8192, Timeouts nil / all zero / all negative / DefaultTimeout 0, cache sizes 0, cache timeouts 0, MaxWorkers 0, connection fields 0/negative, Squash changed (+ other fields), Squash respelled in another letter case (+ other fields; accepted or rejected, but as a whole), rate limiting on with nil config}; UpdateTuningOptions mutators {TransferSize 0/negative, Timeouts nil, DefaultTimeout 0, operation timeouts negative, cache 0, MaxWorkers negative, connection 0, Log nil, all zero}; UpdatePolicyOptions {zero value, current, Squash changed, ReadOnly toggled}; states deduplicated on the reported configuration. After every update GetExportOptions is compared field by field with a model that applies the construction defaults, the live attribute cache, directory cache and worker pool must have the reported sizes and TTLs, a rejected update must leave every field unchanged, and LOOKUP, READ (count>0) and WRITE (count>0 unless read-only) must be served without panic.",
+		rule: "breadth-first search over sequences (depth 3, thorough 4) of 33 runtime updates: UpdateExportOptions with {zero value, only ReadOnly, current, TransferSize -1/0/8192, Timeouts nil / all zero / all negative / DefaultTimeout 0, cache sizes 0, cache timeouts 0, MaxWorkers 0, connection fields 0/negative, Squash changed (+ other fields), Squash respelled in another letter case (+ other fields; accepted or rejected, but as a whole), rate limiting on with nil config / with a custom config / off}; UpdateTuningOptions mutators {TransferSize 0/negative, Timeouts nil, DefaultTimeout 0, operation timeouts negative, cache 0, MaxWorkers negative, connection 0, Log nil, all zero}; UpdatePolicyOptions {zero value, current, Squash changed, ReadOnly toggled}; states deduplicated on the reported configuration. After every update GetExportOptions is compared field by field with a model that applies the construction defaults, the live attribute cache, directory cache, worker pool and rate limiter must have the reported sizes, TTLs and configuration, a rejected update must leave every field unchanged, and LOOKUP, READ (count>0) and WRITE (count>0 unless read-only) must be served without panic.",
 		assumptions: []string{"the construction defaults are those documented on ExportOptions and re-implemented in the check (c24Defaults)", "Log/TLS/RateLimitConfig are compared for nil-ness only"},
 		run: func(c *vCtx) {
 			ops := c24Ops()
